@@ -49,9 +49,9 @@ edition = "2021"
 [[bin]]
 name = "sim"
 path = "{verif}/sim/src/main.rs"
-{shuttle_bin}
+
 [dependencies]
-dsi-bitstream = {{ path = "../shadow" }}
+dsi-bitstream = {{ path = "../shadow"{dsi_opts} }}
 common_traits = ">=0.10.2"
 serde = {{ version = "1", features = ["derive"] }}
 serde_json = "1"
@@ -98,9 +98,10 @@ def build(repo="/repo", tag="main", features=(), profile="release", shuttle=Fals
     repo = os.path.abspath(repo)
     bdir = os.path.join(VERIF, ".build", tag)
     sh_dep = 'shuttle = "0.9.3"' if shuttle else ""
-    sh_bin = ('\n[[bin]]\nname = "simsh"\npath = "%s/sim/src/shuttle_main.rs"\n' % VERIF) if shuttle else ""
+    # the shuttle Mutex has no MemDbg/MemSize impl: build the crate without mem_dbg there
+    dsi_opts = ', default-features = false, features = ["std"]' if shuttle else ""
     write_if_changed(os.path.join(bdir, "shadow", "Cargo.toml"), SHADOW.format(repo=repo, shuttle_dep=sh_dep))
-    write_if_changed(os.path.join(bdir, "sim", "Cargo.toml"), SIM.format(verif=VERIF, shuttle_dep=sh_dep, shuttle_bin=sh_bin))
+    write_if_changed(os.path.join(bdir, "sim", "Cargo.toml"), SIM.format(verif=VERIF, shuttle_dep=sh_dep, dsi_opts=dsi_opts))
     flags = ['"--cfg"', '"dsi_bitstream_verif"']
     if shuttle:
         flags += ['"--cfg"', '"dsi_bitstream_verif_shuttle"']
@@ -122,7 +123,7 @@ def build(repo="/repo", tag="main", features=(), profile="release", shuttle=Fals
         tail = "\n".join(p.stdout.splitlines()[-60:])
         raise RuntimeError("build failed (tag %s):\n%s" % (tag, tail))
     pdir = "release" if profile == "release" else profile
-    return os.path.join(bdir, "sim", "target", pdir, "simsh" if shuttle else "sim")
+    return os.path.join(bdir, "sim", "target", pdir, "sim")
 
 
 if __name__ == "__main__":
